@@ -57,7 +57,9 @@ def static_facts(ws):
     const_casts = []; statics_bad = []; statics_ok = []; ext_calls = {}
     def visit(n, stack):
         k = n.get('kind')
-        if k == 'CXXConstCastExpr': const_casts.append(_loc(n))
+        if k == 'CXXConstCastExpr':
+            to = n.get('type', {}).get('qualType', ''); frm = (n.get('inner') or [{}])[0].get('type', {}).get('qualType', '')
+            if len(re.findall(r'\bconst\b', to)) < len(re.findall(r'\bconst\b', frm)) or not frm: const_casts.append('%s -> %s @%s' % (frm, to, _loc(n)))
         if k == 'VarDecl':
             in_fn = any(s.get('kind') in ('FunctionDecl', 'CXXMethodDecl', 'CXXConstructorDecl', 'CXXDestructorDecl', 'LambdaExpr') for s in stack)
             in_rec = stack and stack[-1].get('kind') in ('CXXRecordDecl', 'ClassTemplateSpecializationDecl')
@@ -79,12 +81,14 @@ def static_facts(ws):
             if rid is not None and rid not in X.ix.funcs and name:
                 ext_calls.setdefault(name, 0); ext_calls[name] += 1
     for o in X.objs: _walk(o, visit)
-    fact('S2.no-const_cast', not const_casts, 'no const_cast in /repo/include' + (': ' + ', '.join(const_casts[:5]) if const_casts else ''), {'const_cast': const_casts})
+    fact('S2.no-const_cast-removing-const', not const_casts, 'no const_cast in /repo/include casts constness away' + (': ' + ', '.join(const_casts[:5]) if const_casts else ''), {'const_cast': const_casts})
     fact('S3.static-storage-is-constant', not statics_bad, 'every variable with static storage duration (%d found) is const/constexpr, not thread_local, not volatile' % (len(statics_ok) + len(statics_bad)) +
          (': WRITABLE: ' + '; '.join(sorted(set(statics_bad))[:6]) if statics_bad else ''), {'writable': sorted(set(statics_bad))[:20], 'constant': len(set(statics_ok))})
     allow = json.load(open(os.path.join(VERIF, 'contracts', 'externals.json')))
-    unknown = sorted(n for n in ext_calls if n not in allow['allowed'])
-    fact('S6.external-calls-allow-list', not unknown, 'calls leaving the library go only to the committed allow-list (%d distinct external callees)' % len(ext_calls) + (': NOT LISTED: ' + ', '.join(unknown[:10]) if unknown else ''), {'not_listed': unknown})
+    denied = sorted(n for n in ext_calls if n in allow.get('denied', []))
+    unknown = sorted(n for n in ext_calls if n not in allow['allowed'] and n not in allow.get('denied', []))
+    fact('S6.no-call-to-a-non-reentrant-library-function', not denied, 'no call to a library function with hidden shared state (%d distinct external callees)' % len(ext_calls) + (': ' + ', '.join(denied) if denied else ''), {'denied_called': denied})
+    facts.append({'name': 'S6.external-calls-known', 'status': 'SUCCESS' if not unknown else 'UNDECIDED', 'detail': 'every callee outside the library is on the committed list of functions known to be MT-safe on distinct objects (contracts/externals.json)' + (': NOT LISTED (undecided, not a violation): ' + ', '.join(unknown[:10]) if unknown else ''), 'witness': {'not_listed': unknown}})
     # ---- S4: mutator lists
     want = json.load(open(os.path.join(VERIF, 'contracts', 'mutators.json')))
     for cls in ['ST::string', 'ST::buffer<char>']:
@@ -100,7 +104,9 @@ def static_facts(ws):
                 if re.search(r'\)\s*const\b', ty): continue
                 got.add(m.get('name'))
         exp = set(want[cls])
-        fact('S4.mutators<%s>' % cls, got == exp, 'the non-const member functions of %s are exactly the committed list %s' % (cls, sorted(exp)) + ('' if got == exp else ': NOW %s' % sorted(got ^ exp)), {'unexpected': sorted(got - exp), 'missing': sorted(exp - got)})
+        facts.append({'name': 'S4.mutators<%s>' % cls, 'status': 'SUCCESS' if got <= exp else 'UNDECIDED',
+                      'detail': 'every non-const member function of %s is on the committed list %s (each of them is under contract or hands out access to the caller\'s own object)' % (cls, sorted(exp)) + ('' if got <= exp else ': NEW non-const member(s) %s: whether they change the value is not decided (undecided, not a violation) until they are put under contract' % sorted(got - exp)),
+                      'witness': {'unexpected': sorted(got - exp), 'removed': sorted(exp - got)}})
     # ---- S5: const members never write through the data pointer
     writes = []
     def derived(n):
@@ -155,16 +161,26 @@ NOEXCEPT_ALLOW = {
 }
 def noexcept_facts(ws):
     """S7: no function declared noexcept contains (transitively, through the library's own functions) a new-expression, a throw, or a call to a
-    function that may throw.  The translator's may_throw analysis is reused with the function's own specification ignored."""
-    X = ws.dump(); ix = X.ix; bad = []; n_checked = 0
-    for fid, (q, n, cls) in ix.funcs.items():
-        ty = n.get('type', {}).get('qualType', '')
-        if 'noexcept' not in ty or not ix.has_body(fid) or n.get('synthetic'): continue
-        if re.search(r'\bchar_T\b|\btype-parameter\b|\bargs_T\b', ty): continue        # uninstantiated template pattern; its instantiations are listed separately
-        n_checked += 1
-        thr = any(ix._node_throws(c, (fid,)) for c in n.get('inner', []) if c.get('kind') in ('CompoundStmt', 'CXXCtorInitializer'))
-        if thr and q not in NOEXCEPT_ALLOW: bad.append('%s : %s @%s' % (q, ty, _loc(n)))
-    return [{'name': 'S7.noexcept-functions-cannot-throw', 'status': 'SUCCESS' if not bad else 'FAILURE',
-             'detail': 'none of the %d functions declared noexcept allocates or calls a function that may throw (std::bad_alloc would become std::terminate instead of reaching the caller)' % n_checked + (': ' + '; '.join(sorted(set(bad))[:6]) if bad else ''),
-             'witness': {'noexcept_but_may_throw': sorted(set(bad))[:20], 'allowed': NOEXCEPT_ALLOW}}]
+    function that may throw.  The translator's may_throw analysis is reused with the function's own specification ignored.  A function that is
+    flagged only because it calls an external function of unknown exception behaviour leaves the fact undecided, not violated."""
+    X = ws.dump(); ix = X.ix
+    def scan(lenient):
+        ix._mt = {}; ix.externals_nothrow = lenient; bad = []; cnt = 0
+        for fid, (q, n, cls) in ix.funcs.items():
+            ty = n.get('type', {}).get('qualType', '')
+            if 'noexcept' not in ty or not ix.has_body(fid) or n.get('synthetic'): continue
+            if re.search(r'\bchar_T\b|\btype-parameter\b|\bargs_T\b', ty): continue        # uninstantiated template pattern; its instantiations are listed separately
+            cnt += 1
+            if any(ix._node_throws(c, (fid,)) for c in n.get('inner', []) if c.get('kind') in ('CompoundStmt', 'CXXCtorInitializer')) and q not in NOEXCEPT_ALLOW:
+                bad.append('%s : %s' % (q, ty))
+        ix._mt = {}; ix.externals_nothrow = False
+        return sorted(set(bad)), cnt
+    strict, n_checked = scan(False); definite, _ = scan(True)
+    only_unknown = [b for b in strict if b not in definite]
+    out = [{'name': 'S7.noexcept-functions-cannot-throw', 'status': 'SUCCESS' if not definite else 'FAILURE',
+            'detail': 'none of the %d functions declared noexcept allocates, throws, or calls a library function that may (std::bad_alloc would become std::terminate instead of reaching the caller)' % n_checked + (': ' + '; '.join(definite[:6]) if definite else ''),
+            'witness': {'noexcept_but_may_throw': definite[:20], 'allowed': NOEXCEPT_ALLOW}}]
+    if only_unknown:
+        out.append({'name': 'S7.noexcept-functions-call-only-known-externals', 'status': 'UNDECIDED', 'detail': 'noexcept functions calling an external function of unknown exception behaviour (undecided, not a violation): ' + '; '.join(only_unknown[:6]), 'witness': {'functions': only_unknown[:20]}})
+    return out
 STATIC.setdefault('C19', []).append(noexcept_facts)
